@@ -15,6 +15,7 @@ Definition dispatch (tag : string) (s : sexp) : sexp :=
   else if String.eqb tag "methodslab" then run_methodslab s
   else if String.eqb tag "normpath" then run_normpath s
   else if String.eqb tag "matchlab" then run_matchlab s
+  else if String.eqb tag "redirectlab" then run_redirectlab s
   else A "UNKNOWN-TAG".
 
 Extraction Blacklist String List Nat Bool.
